@@ -36,6 +36,9 @@ func init() {
 			Req: []string{"is($elem, string)", "def($s, $elem.(string), 0)", "inloop($elem, $aud)"}},
 		{ID: "E1.time.forms", Fn: "oidc.(*Time).UnmarshalJSON", P: []string{"ts", "data"}, Kind: "ret ok", Min: 1,
 			Req: []string{"ok(json.Unmarshal($data, &$v))", "is($v, float64) || (is($v, string) && ok(time.Parse(time.RFC3339, _))) || nil($v)"}},
+		{ID: "E1.locales.only-wellformed-entries", Fn: "oidc.ParseLocales", P: []string{"locales"}, Kind: "call", Pat: "append($out, $tag)", Max: 1,
+			Why: "tolerant decoding drops an ill-formed or undefined entry; it never keeps a tag the document did not contain (a parsed prefix)",
+			Req: []string{"def($tag, language.Parse($locale), 0)", "ok(language.Parse($locale))", "false($tag.IsRoot())", "inloop($locale, $locales)"}},
 		{ID: "E1.locales.forms", Fn: "oidc.(*Locales).UnmarshalJSON", P: []string{"l", "data"}, Kind: "ret ok", Min: 1,
 			Req: []string{"ok(json.Unmarshal($data, &$dst))", "nil($dst) || is($dst, string) || (is($dst, []any) && ok(gu.AssertInterfaces(_)))"}},
 		// AES sealing
